@@ -85,7 +85,7 @@ PROPS["C16"] = {
     "kani": "c16",
     "mir": "c16",
     "level": "model_checking",
-    "explanation": "Bounded model checking (Kani/CBMC) of the integer-epoch unit heuristic that every numeric spelling of a time goes through: for every i64 in each documented digit window the result is the floor of the denoted instant in seconds (the value an ISO-8601 spelling of the same instant gets), including instants before 1970 and both digit-count boundaries of every unit; 20+ digit integers are rejected for every i128. Engine B B-3: TimeParser::normalize_integer_epoch over the whole i128 range through a mod-2^128 integer encoding of its MIR (signed arithmetic, unsigned_abs / div_euclid / i64::try_from modelled exactly; num_digits_u128 unrolled 40x with the unwinding assertion discharged and replaced by a per-digit-count lemma): seconds unchanged below 10^11, floor(n/10^3), floor(n/10^6), floor(n/10^9) in the ms / us / ns windows, None from 20 digits. B-4: normalize_json_value writes back the unit heuristic's result for JSON integers, the floor of a JSON float and the string parser's result for strings (data flow of the values assigned to the payload slot).",
+    "explanation": "Bounded model checking (Kani/CBMC) of the integer-epoch unit heuristic that every numeric spelling of a time goes through: for every i64 in each documented digit window the result is the floor of the denoted instant in seconds (the value an ISO-8601 spelling of the same instant gets), including instants before 1970 and both digit-count boundaries of every unit; 20+ digit integers are rejected for every i128. Engine B B-3: TimeParser::normalize_integer_epoch over the whole i128 range through a mod-2^128 integer encoding of its MIR (signed arithmetic, unsigned_abs / div_euclid / i64::try_from modelled exactly; num_digits_u128 unrolled 40x with the unwinding assertion discharged and replaced by a per-digit-count lemma): seconds unchanged below 10^11, floor(n/10^3), floor(n/10^6), floor(n/10^9) in the ms / us / ns windows, None from 20 digits. B-4: normalize_json_value writes back the unit heuristic's result for JSON integers, the floor of a JSON float and the string parser's result for strings (data flow of the values assigned to the payload slot). B-5: the calendar bucketers (hour / day / week / month / year) build the bucket start from the local date of the zoned instant and localise it in the instant's own zone (data flow of the returned value; the UTC view never enters).",
     "outside": [
         "ISO-8601 / RFC 3339 spellings and UTC offsets (chrono parsing does not finish under Kani), agreement of the four normalisation call sites on strings",
         "the choice of unit at a digit-count boundary is the documented heuristic itself (an 11-digit millisecond value is read as seconds); it is taken as given, not checked against the caller's intent",
@@ -148,7 +148,7 @@ PROPS["C05"] = {
 PROPS["C11"] = {
     "mir": "c11",
     "level": "other",
-    "explanation": "Symbolic path-condition checking over the real MIR: a flushed segment enters the live list only after flush Ok + verification, segments.idx is replaced by temp/fsync/rename with a stale temp removed on load, compaction swaps index entries only for existing output directories and updates the live list only after the save - each decided by z3. B-4: one step of RangeAllocator::next_for_level from an arbitrary allocator state (stored offset < LEVEL_SPAN-1, any level below saturation): the id lies in the level's range and the next id of the level is strictly larger (saturating arithmetic modelled exactly, integer encoding); B-4r: the range is left at offset LEVEL_SPAN (known finding F-C11-a, replayed on the real allocator); B-5: merge plans get fresh ids. B-6: RangeAllocator::from_existing_ids raises the stored offset of a name's level above the name's own offset (one loop step from an arbitrary map state).",
+    "explanation": "Symbolic path-condition checking over the real MIR: a flushed segment enters the live list only after flush Ok + verification, segments.idx is replaced by temp/fsync/rename with a stale temp removed on load, compaction swaps index entries only for existing output directories and updates the live list only after the save - each decided by z3. B-4: one step of RangeAllocator::next_for_level from an arbitrary allocator state (stored offset < LEVEL_SPAN-1, any level below saturation): the id lies in the level's range and the next id of the level is strictly larger (saturating arithmetic modelled exactly, integer encoding); B-4r: the range is left at offset LEVEL_SPAN (known finding F-C11-a, replayed on the real allocator); B-5: merge plans get fresh ids. B-6: RangeAllocator::from_existing_ids raises the stored offset of a name's level above the name's own offset (one loop step from an arbitrary map state). B-7: ShardContext::new seeds the restart allocator from an iteration over the complete directory scan (every level keeps its own counter).",
     "trusted_base": MIR_TRUSTED,
     "outside": [
         "byte-immutability of segment files over a lifetime, id reuse after restart / compaction (allocator seeded from directory names), crash points",
